@@ -36,7 +36,7 @@ def _shapes(tier):
             ([2, 2, 2], [1, 1, 2, 1], [1, 2, 2, 1], [1, 2, 2, 1]),
             # leading / trailing modes of size 1: the reshaped (super)cores are F-contiguous views that LAPACK may overwrite in place
             ([1, 2, 2], [1, 1, 2, 1], [1, 1, 2, 1], [1, 1, 2, 1]),
-            ([2, 1], [1, 2, 1], [1, 2, 1], [1, 2, 1])]
+            ([2, 1], [1, 2, 1], [1, 1, 1], [1, 1, 1])]        # ranks of the vectors bounded by the mode products (bond rank <= 1 next to a size-1 mode)
     if tier != 'quick':
         base += [([2, 2, 2, 2], [1, 2, 2, 2, 1], [1, 1, 2, 1, 1], [1, 2, 2, 2, 1]),
                  ([2, 3], [1, 2, 1], [1, 2, 1], [1, 3, 1]),
